@@ -178,9 +178,11 @@ def cone(vfile):
         p = os.path.join(COQ, f)
         if not os.path.exists(p):
             continue
-        for m in re.finditer(r'From SG Require (?:Import|Export) ([^.]*(?:\.[A-Za-z_0-9]+)*[^.]*)\.\s', open(p).read()):
+        txt = strip_comments(open(p).read())
+        for m in re.finditer(r'From SG Require (?:Import|Export)\s+(.*?)\.(?=\s|$)', txt, re.S):
             for mod in m.group(1).split():
-                todo.append(mod.replace('.', '/') + '.v')
+                if re.fullmatch(r'[A-Za-z_0-9.]+', mod):
+                    todo.append(mod.replace('.', '/') + '.v')
     return seen
 
 
